@@ -20,6 +20,30 @@ CHECKS = {
         technique="translation validation: Lean 4 kernel-checked equivalence checker (check_sound) fed with the real compiler's output vs the Lean source semantics, on generated programs",
         text="Every generated program is compiled by the real compiler and each routine is validated against the Lean small-step source semantics on the Lean SSB machine by a checker whose soundness (equal operation/test traces for every outcome of every test, halting preserved) is a kernel-checked theorem over all transition systems and relations. A verdict is per program; no forall-programs theorem about the compiler is claimed.",
         note=TV_NOTE + "The ANTLR parser and the compiler are not modelled."),
+    "C03": dict(
+        level="proof", design="4/C03",
+        technique="Lean 4 theorems about a hand-written, statement-by-statement executable model of the ExplorerScript compiler after parsing "
+                  "(compile handlers with the op/label counters, allocate()d header numbers, lone-jump shortcut, loop/case stacks, macro blueprints and "
+                  "ExplorerScriptMacro.build, routine tables, routine_op_offsets_are_ordered, strip_last_label, LabelFinalizer, OpsLabelJumpToRemover) and "
+                  "of the SsbScript compiler (model of C07) + exact model-vs-implementation correspondence on generated programs (ops with RAW offsets "
+                  "and jump targets, tables, exception classes) + property oracle on the real compile results",
+        text="Kernel-checked: compile_closed — for ALL programs of the model's input language (any nesting of all statement forms, labels and jumps "
+             "across routines, alias routines, routine ids in any order, macros with nested calls and any resolution order handed in): if compilation "
+             "succeeds then op offsets are pairwise distinct across routines, every op named in OPS_WITH_JUMP_TO_MEM_OFFSET has as LAST parameter an int "
+             "that is the offset of an op of the result, the three tables are equally long (no pseudo item can remain: by typing) — under the decidable "
+             "guard NoUserJumpOps (no operation written in the source is itself named like a jump-carrying op); without the guard the property is false "
+             "on the real compiler ('def 0 { Jump(7); }', compile_closed_counterexample, known finding). Built from backend_closed (for ARBITRARY labelled "
+             "code with distinct op offsets the three back-end passes yield a closed result or fail; strip_last_label_offsets, finalizer_offsets_survive, "
+             "remover_closed) and counter_fresh (front-end invariant by induction over the statement tree: every offset handed out by Counter.__call__ / "
+             "allocate / visiting-time ticks / macro expansion is used at most once; dropped numbers are never reused), tables_same_length. "
+             "ssbscript_compile_closed: the same for the SsbScript compiler model under the guards MarkersLast (jump-carrying ops end in a @label marker) "
+             "and IdsFresh (no routine id negative or defined twice), each shown necessary by a counterexample theorem that also fails on the real code "
+             "(known findings).",
+        note=COMMON_NOTE + "The model starts after parsing; headers, assignments and message switches are lowered to opcode + parameters by the harness "
+             "(harness/gen/complower.py on the table of harness/gen/surface.py), so the theorem is about control-flow code generation, numbering, labels, macros "
+             "and the back end; the ANTLR parser is covered differentially (generated AST printed, text compiled by the real compiler, AST given to the model, "
+             "astdump(print(ast)) == ast). Macro resolution order is an input taken from the real compiler (C05); imports and source maps are not modelled. "
+             "Known findings: user_op_named_like_jump_op, ssbs_jump_op_without_trailing_marker, ssbs_routine_id_defined_twice."),
     "C04": dict(
         level="proof", design="4/C04",
         technique="Lean 4 theorems about a hand-written model of the literal printers and readers (ssb_data_types.py repr_string/escape_*/"
